@@ -74,7 +74,14 @@ func Decode(v interface{}) (Expr, error) {
 	sub := func(k string) (Expr, error) { return Decode(m[k]) }
 	switch m["k"] {
 	case "lit":
-		t := Type(int(m["t"].(float64)))
+		var ti int
+		switch tv := m["t"].(type) {
+		case float64:
+			ti = int(tv)
+		case int:
+			ti = tv
+		}
+		t := Type(ti)
 		l := &Lit{T: t}
 		s, _ := m["v"].(string)
 		switch t {
